@@ -1,33 +1,38 @@
 #!/bin/bash
-# keep_mutant.sh <worktree> <seeded-id> <PID> "<caught-by text>"   -- run from /verif; confirms demo + tests + check, stores under seeded/
+# keep_mutant.sh <worktree> <seeded-id> <PID> "<caught-by text>"
+# Confirms a seeded change (patch.diff is the source of truth): demo fails with it and passes without it, the existing suite
+# still passes, and runs the property's check against the patched tree (in a scratch copy of /verif if VDIR is set).
 set -u
 W=$1; ID=$2; PID=$3; CAUGHT=$4
+V=${VDIR:-/verif}
 D=/verif/seeded/$ID; mkdir -p $D
 cd $W
-git diff -- mouette > $D/patch.diff
-demo=$(ls demo_*.py | head -1); cp $demo $D/
-# demo on mutant
-PYTHONPATH=$W /venv/bin/python -W ignore $demo > /tmp/me/demo_mut.txt 2>&1; rc_mut=$?
-git stash -q -- mouette
+cp patch.diff $D/patch.diff
+demo=$(ls demo*.py | head -1); cp $demo $D/
+git checkout -q -- mouette; git clean -fdq mouette
 PYTHONPATH=$W /venv/bin/python -W ignore $demo > /tmp/me/demo_clean.txt 2>&1; rc_clean=$?
-git stash pop -q
-tests=$(PYTHONPATH=$W /venv/bin/python -W ignore -m pytest -q -p no:cacheprovider --deselect tests/test_ff_volumes.py --deselect tests/test_levenberg_marquardt.py tests 2>&1 | tail -1)
-cd ${VDIR:-/verif}
-MOUETTE_REPO=$W ./check $PID > /tmp/me/check_mut.txt 2>&1; rc_check=$?
-viol=$(grep -c '^VIOLATION' /tmp/me/check_mut.txt)
-/venv/bin/python - "$W" "$D" "$PID" "$rc_mut" "$rc_clean" "$tests" "$rc_check" "$viol" "$CAUGHT" <<'PY'
+git apply patch.diff || { echo "patch does not apply"; exit 3; }
+PYTHONPATH=$W /venv/bin/python -W ignore $demo > /tmp/me/demo_mut.txt 2>&1; rc_mut=$?
+tests=$(PYTHONPATH=$W /venv/bin/python -W ignore -m pytest -q -p no:cacheprovider --timeout=1800 --deselect tests/test_ff_volumes.py --deselect tests/test_levenberg_marquardt.py tests 2>&1 | tail -1)
+cd $V
+MOUETTE_REPO=$W ./check $PID > /tmp/me/check_mut_$ID.txt 2>&1; rc_check=$?
+viol=$(grep -c '^VIOLATION' /tmp/me/check_mut_$ID.txt)
+/venv/bin/python - "$W" "$D" "$PID" "$rc_mut" "$rc_clean" "$tests" "$rc_check" "$viol" "$CAUGHT" "$ID" <<'PY'
 import json, sys, os
-W, D, PID, rc_mut, rc_clean, tests, rc_check, viol, caught = sys.argv[1:]
+W, D, PID, rc_mut, rc_clean, tests, rc_check, viol, caught, ID = sys.argv[1:]
 meta = json.load(open(os.path.join(W, "meta.json"))) if os.path.exists(os.path.join(W, "meta.json")) else {}
-first = [l.strip() for l in open('/tmp/me/check_mut.txt') if l.startswith('VIOLATION') or l.startswith('   C')][:6]
+lines = [l.rstrip() for l in open(f'/tmp/me/check_mut_{ID}.txt')]
+first = [l.strip() for l in lines if l.startswith('VIOLATION') or l.startswith('   C') or l.startswith('BROKEN')][:8]
 out = {"property": PID, "summary": meta.get("summary"), "needs_to_manifest": meta.get("needs"),
        "author_ran": meta.get("ran"),
        "confirmed_by_integrator": {
            "demo_exit_with_change": int(rc_mut), "demo_exit_without_change": int(rc_clean),
            "existing_suite_with_change": tests,
            "check_cmd": f"MOUETTE_REPO=<worktree with patch> ./check {PID} --tier quick",
-           "check_exit": int(rc_check), "violation_lines": int(viol), "first_lines": first},
+           "check_exit": int(rc_check), "violation_lines": int(viol), "first_lines": first,
+           "last_line": lines[-1] if lines else ""},
        "caught_by": caught}
 json.dump(out, open(os.path.join(D, "meta.json"), "w"), indent=1)
-print(json.dumps(out["confirmed_by_integrator"], indent=1))
+print(ID, json.dumps({k: out["confirmed_by_integrator"][k] for k in ("demo_exit_with_change", "demo_exit_without_change", "existing_suite_with_change", "check_exit", "violation_lines")}))
+for l in first[:4]: print("    ", l[:160])
 PY
